@@ -9,15 +9,28 @@ Open Scope R_scope.
 
 (* the translated function is "multiply every column by one matrix M", M orthogonal, det 1,
    for EVERY sin/cos triple on the unit circle: the optimiser's output is irrelevant *)
+(* an elementary rotation matrix is orthogonal with determinant 1 *)
+Ltac elem_rot := unfold orth; vunfold; repeat split; nsatz.
+
 Lemma rot_proper sx cx sy cy sz cz :
   cx*cx + sx*sx = 1 -> cy*cy + sy*sy = 1 -> cz*cz + sz*sz = 1 ->
   exists M, (forall cols, rotate_xyz cols sx cx sy cy sz cz = mcols M cols) /\ orth M /\ mdet M = 1.
 Proof.
   intros Hx Hy Hz.
-  refine (ex_intro _ ?[M] (conj _ (conj _ _))).
+  refine (ex_intro _ ?[M] (conj _ _)).
   - intros cols. unfold rotate_xyz. cbv zeta. reflexivity.
-  - unfold orth. vunfold. repeat split; nsatz.
-  - vunfold. nsatz.
+  - (* fast path: the source multiplies three elementary matrices; fallback: the expanded
+       polynomial identities (slow, used after a refactoring of the source) *)
+    first [ split;
+            [ apply orth_mmul; [apply orth_mmul|]; elem_rot
+            | rewrite !mdet_mmul;
+              match goal with |- ?a * ?b * ?c = 1 =>
+                let Ha := fresh in let Hb := fresh in let Hc := fresh in
+                assert (Ha : a = 1) by (vunfold; nsatz);
+                assert (Hb : b = 1) by (vunfold; nsatz);
+                assert (Hc : c = 1) by (vunfold; nsatz);
+                rewrite Ha, Hb, Hc; ring end ]
+          | split; [unfold orth; vunfold; repeat split; nsatz | vunfold; nsatz] ].
 Qed.
 
 (* the placement expression is cg + fudge * v, whichever way the source spells it *)
@@ -231,10 +244,10 @@ End Lookup.
 
 Lemma rot_nonvacuous : exists M, orth M /\ mdet M = 1 /\ mvmul M (1, 0, 0) = (0, 1, 0).
 Proof.
-  destruct (rot_proper 0 1 0 1 1 0) as (M & HM & HO & HD); try lra.
-  exists M. split; [exact HO|]. split; [exact HD|].
-  specialize (HM (cons (1,0,0) nil)). unfold rotate_xyz in HM. cbv zeta in HM.
-  unfold mcols in HM. cbn [map] in HM.
-  assert (E : mvmul M (1,0,0) = (0,1,0)); [|exact E].
-  apply (f_equal (fun l => hd vzero l)) in HM. cbn [hd] in HM. rewrite <- HM. vunfold. apply vec_eq; ring.
+  exists ((0, -1, 0), (1, 0, 0), (0, 0, 1)).
+  unfold orth. vunfold. repeat split; try lra. apply vec_eq; lra.
 Qed.
+
+(* and the translated rotation itself, at theta_z = 90 degrees, is that matrix *)
+Lemma rot_nonvacuous_gen : rotate_xyz (cons (1,0,0) nil) 0 1 0 1 1 0 = cons (0,1,0) nil.
+Proof. unfold rotate_xyz. cbv zeta. unfold mcols. cbn [map]. rewrite !mvmul_mmul. f_equal. vunfold. apply vec_eq; ring. Qed.
